@@ -206,7 +206,9 @@ def gen_case(ch):
     sr = [1000.0, 200.0, 500.0][ch.draw(3, "sr")]
     lf = 9 + ch.draw(40, "LF") if manyf else 1 + ch.draw(8, "LF")
     if shape_run:
-        lf = 1 + ch.draw(64, "LFshape")
+        # up to 140 frequencies: anything keyed on the number of tasks one worker executes
+        # (a per-process task limit, a buffer that wraps) needs many tasks on few workers
+        lf = 1 + ch.draw(64, "LFshape") if not ch.flip(1, 3, "LFshape_large") else 51 + ch.draw(90, "LFshape")
     freq = rng.uniform(sr / 100, 0.45 * sr, lf)
     if ch.flip(1, 3, "fsorted"):
         freq = np.sort(freq)
